@@ -491,6 +491,16 @@ func (v *Verifier) step(st *State, b *ssa.BasicBlock, i int, in ssa.Instruction)
 			ct = mk("Fn", name)
 		}
 		st.assume(tNot(mk("Bool", "=", ct, tNilF)))
+		// closure identity: which function it is, and the cells it captured (used by isclo()/captured())
+		v.D.declFun("zz_cloid", []string{"Fn"}, "Int")
+		st.assume(tEq(mk("Int", "zz_cloid", ct), intLit(int64(cloID(fn)))))
+		for i, b := range bs {
+			if b.Sort == "Ptr" {
+				cf := fmt.Sprintf("zz_capcell_%d", i)
+				v.D.declFun(cf, []string{"Fn"}, "Ptr")
+				st.assume(tEq(mk("Ptr", cf, ct), b))
+			}
+		}
 		v.selfFacts(fn, ct, st)
 		v.checkCaptures(st, fn, bs, in)
 		v.bind(st, x, ct)
@@ -570,6 +580,16 @@ func (v *Verifier) step(st *State, b *ssa.BasicBlock, i int, in ssa.Instruction)
 		v.bind(st, val, v.Y.fresh(v.D, "unk", v.sortOf(val.Type())))
 	}
 	return true
+}
+
+// cloID is a stable identifier of a function literal (hash of its qualified name)
+func cloID(fn *ssa.Function) int {
+	name := shortPkg(fn) + "." + fnKey(originOf(fn))
+	h := 17
+	for _, b := range []byte(name) {
+		h = (h*131 + int(b)) % 1000003
+	}
+	return h + 1
 }
 
 func shortPkg(fn *ssa.Function) string {
